@@ -86,7 +86,7 @@ def gen_mm(mode, maxlen=None, depth=None, slots=None):
         ov["MaxDepth"] = depth
     if slots:
         ov["Slots"] = slots
-    return {"module": "Gen_MinMax", "cfg": "Gen_MinMax_%s.cfg" % mode, "overrides": ov, "family": "minmax", "embeddings": "1,1e-30,1e30,1.7976931348623157e308"}
+    return {"module": "Gen_MinMax", "cfg": "Gen_MinMax_%s.cfg" % mode, "overrides": ov, "family": "minmax", "embeddings": "1,1e-30,1e30,1.7976931348623157e308,1e-310"}
 
 
 MC_Q = {"module": "MC_Quantile", "cfg": "MC_Quantile.cfg", "overrides": {"MaxLen": ("6", "8")}, "timeout": 7200}
@@ -317,7 +317,7 @@ PROPS = {
         "technique": 'TLC model checking of Quantile.tla + step-wise replay + TLC trace validation of recorded long runs + long-stream comparison with the specification Step in f64 (qref, cross-checked per generated step)',
         "title": "Quantile follows the P-square algorithm exactly once five observations are in",
         "mc": [MC_Q],
-        "replay": [gen_q("big", "E0,E3,E5", maxlen=("7", "8")),
+        "replay": [gen_q("big", "E0,E3,E5,E12,E13", maxlen=("7", "8")),
                    gen_q("big", "E0,E5", maxlen=("12", "14"), alphabet="GenAlphabet01"),
                    {**gen_q("big", "E0", maxlen="9", alphabet="GenAlphabet012"), "skip": (True, False)},
                    {**gen_q("big", "E0", maxlen=("6", "7"), alphabet="GenAlphabetB", pset="GenPSetMore"), "skip": (True, False)},
